@@ -987,6 +987,11 @@ def den_gfx_jobs(ctx):
         bg = rng.choice([None, [rng.randrange(256) for _ in range(3)]])
         jobs.append({"kind": "gfx", "style": st, "bg": bg, "src": src, "mode": mode, "pixel": pixel, "size": size,
                      "width": width, "set_method": sm, "rff": rff, "spec": spec})
+    # a palette image whose only entry is FULLY transparent (an index, not an alpha table), transparency disabled /
+    # bgcolor / default: found on the unchanged tree in round 8 (pending_fixes/C19_disabled_transparency_colour_key)
+    for st, sp in (("iterm2", "1.1#+W"), ("iterm2", "1.1#+L"), ("iterm2", "1.1##+W"), ("iterm2", "1.1+W"), ("kitty", "1.1#+W")):
+        jobs.append({"kind": "gfx", "style": st, "bg": None, "src": "file", "mode": "P", "pixel": [140, 174, 196, 0],
+                     "size": [4, 4], "width": 2, "set_method": None, "rff": None, "spec": sp})
     return jobs
 
 
